@@ -32,7 +32,7 @@ func (x *runner) one(sp sv.Spec, classes ...string) {
 	for _, f := range sv.CheckC08(sp, o) {
 		x.res.Fail(f.Key, f.What, sp)
 	}
-	exp := sv.Walk(sv.Tokenize([]byte(sp.Script), sp.NS))
+	exp := sp.Expected()
 	b, _ := json.Marshal(sp)
 	cl := append([]string{"ns/" + sp.NS, "ret/" + o.Ret.String(), "terminal/" + exp.Terminal,
 		fmt.Sprintf("elements/%d", len(exp.Elems)), fmt.Sprintf("invocations/%d", len(o.Invs))}, classes...)
@@ -107,6 +107,44 @@ func (x *runner) reader(rc readerCase) {
 			}
 		}
 	}
+	// WebSocket framing: the first framing element met ends the reading: a
+	// top-level <close/> as the end of the input, anything else as a restart
+	if rc.WS {
+		depth := 0
+		for i, t := range toks {
+			if i >= len(seen) || seen[i].Err.Code != 0 && !(t.K == 1 && t.Space == wsNS) {
+				break
+			}
+			if t.K == 1 && t.Space == wsNS {
+				want := 4
+				if depth == 0 && t.Local == "close" {
+					want = 1
+				}
+				if seen[i].Err.Code != want || seen[i].Tok != nil {
+					key := "C08/reader/ws-framing-element"
+					if depth > 0 && seen[i].Err.Code == 1 {
+						key = "C08/reader/nested-ws-close-ends-input"
+					}
+					x.res.Fail(key, fmt.Sprintf("framing element <%s> at depth %d: the stream reader returned %v", t.Local, depth, seen[i].Err), rc)
+				}
+				break
+			}
+			switch t.K {
+			case 1:
+				if t.Space == stream.NS {
+					depth = -1 << 20 // a stream-level element ends the reading first
+				}
+				depth++
+			case 2:
+				depth--
+			case 4:
+				depth = -1 << 20
+			}
+			if depth < 0 {
+				break
+			}
+		}
+	}
 	if x.noModel {
 		return
 	}
@@ -177,6 +215,46 @@ func (x *runner) exhaustive(depth int) {
 			return
 		}
 		for _, it := range items {
+			rec(prefix+it, d-1)
+		}
+	}
+	for d := 1; d <= depth; d++ {
+		rec("", d)
+	}
+}
+
+// ---- WebSocket framing: served sessions negotiated with websocket.Negotiator ----
+
+const wsNS = "urn:ietf:params:xml:ns:xmpp-framing"
+
+var wsItems = []string{
+	"<iq xmlns='jabber:client' type='get' id='x' from='me@example.net'><query xmlns='urn:example:q'/></iq>",
+	"<message xmlns='jabber:client' from='a@example.net/r'><body>hi</body></message>",
+	"<a xmlns='urn:example:other'/>",
+	"<iq xmlns='jabber:client' type='set' id='y'><q xmlns='urn:example:q'/><close xmlns='" + wsNS + "'/><b/></iq>",
+	"<message xmlns='jabber:client'><body><open xmlns='" + wsNS + "'/></body></message>",
+	"<close xmlns='urn:example:other'/>",
+	" ", "<!-- c -->", "junk",
+	"<close xmlns='" + wsNS + "'/>",
+	"<open xmlns='" + wsNS + "' version='1.0'/>",
+	"<error xmlns='http://etherx.jabber.org/streams'><host-gone xmlns='urn:ietf:params:xml:ns:xmpp-streams'/></error>",
+	"<a xmlns='urn:example:other'><b>",
+}
+
+var wsPatterns = []string{"all", "beyond-swallow", "none", "ret-other", "skip"}
+
+func (x *runner) exhaustiveWS(depth int) {
+	var rec func(prefix string, d int)
+	rec = func(prefix string, d int) {
+		if d == 0 {
+			for _, tail := range []string{"<close xmlns='" + wsNS + "'/>", "<"} {
+				for _, k := range wsPatterns {
+					x.one(sv.Spec{NS: "jabber:client", Own: sv.OwnFull, WS: true, Script: prefix + tail, Progs: [][]sv.Op{patterns[k]}, Label: "exh-ws/" + k}, "ws", "pattern/"+k)
+				}
+			}
+			return
+		}
+		for _, it := range wsItems {
 			rec(prefix+it, d-1)
 		}
 	}
@@ -278,7 +356,7 @@ func (x *runner) randomReader(r *hx.Rand) {
 		case k < 11:
 			sb.WriteString(sv.Pick(r, []string{"<open xmlns='urn:ietf:params:xml:ns:xmpp-framing'/>", "<close xmlns='urn:ietf:params:xml:ns:xmpp-framing'/>",
 				"<a><open xmlns='urn:ietf:params:xml:ns:xmpp-framing'/></a>", "<stream:error><a xmlns='urn:ietf:params:xml:ns:xmpp-streams'><text xmlns='urn:ietf:params:xml:ns:xmpp-streams'/></a><text xmlns='urn:ietf:params:xml:ns:xmpp-streams'><b/>t</text></stream:error>",
-				"<stream:error>"}))
+				"<stream:error>", "<a><b><close xmlns='urn:ietf:params:xml:ns:xmpp-framing'/></b>t</a>", "<close xmlns='urn:example:other'/>"}))
 		default:
 			sb.WriteString(sv.Pick(r, sv.Malformed))
 		}
@@ -346,6 +424,7 @@ func main() {
 			depth, n, nr = 3, 40000, 10000
 		}
 		x.exhaustive(depth)
+		x.exhaustiveWS(2)
 		for i := 0; i < n; i++ {
 			x.random(r)
 		}
@@ -377,6 +456,11 @@ var corpus = []sv.Spec{
 	// serveTests case 14: the end-of-element boundary
 	{NS: "jabber:client", Own: sv.OwnFull, Script: "<iq type='get' id='1234'><unknownpayload xmlns='unknown'/></iq><iq type='get' id='5'/></stream:stream>", Progs: [][]sv.Op{{{K: "read", N: 8}}}, Label: "corpus/read-beyond-end"},
 	{NS: "jabber:server", Own: "example.net", Script: " <presence from='example.net'/>\n<message from='example.net/x'><body>a</body></message> </stream:stream>", Progs: [][]sv.Op{{{K: "skip", N: 9}}, nil}, Label: "corpus/server-ns"},
+	// WebSocket framing: the peer's <close/> ends Serve without error, <open/> is a restart, neither reaches a handler
+	{NS: "jabber:client", Own: sv.OwnFull, WS: true, Script: "<message xmlns='jabber:client' from='me@example.net'><body>hi</body></message> <close xmlns='" + wsNS + "'/>", Progs: [][]sv.Op{{{K: "readret", N: 40}}}, Label: "corpus/ws-close"},
+	{NS: "jabber:client", Own: sv.OwnFull, WS: true, Script: "<a xmlns='urn:example:other'/><open xmlns='" + wsNS + "'/><b xmlns='urn:example:other'/>", Label: "corpus/ws-open-midstream"},
+	// ... and a <close/> inside an element is not the end of anything (it made the element look complete to the handler)
+	{NS: "jabber:client", Own: sv.OwnFull, WS: true, Script: "<iq xmlns='jabber:client' type='get' id='x'><q xmlns='urn:example:q'/><close xmlns='" + wsNS + "'/><b/></iq><message xmlns='jabber:client'/><close xmlns='" + wsNS + "'/>", Progs: [][]sv.Op{{{K: "readret", N: 40}}}, Label: "corpus/ws-nested-close"},
 	// responses to outstanding requests of the session go to the waiting call, the rest to the handler
 	{NS: "jabber:client", Own: sv.OwnFull, Script: "<iq type='get' id='x'/><iq type='result' id='x'><q xmlns='urn:example:q'/></iq><message id='x'/></stream:stream>",
 		Pend: []sv.PendSpec{{ID: "x", Kind: "iq", Type: "get", Prog: []sv.Op{{K: "read", N: 1}, {K: "readret", N: 40}}}}, Label: "corpus/response-to-waiter"},
